@@ -15,7 +15,7 @@ import shutil
 from vf import build, coq, datadir
 from vf.forest import Call, gen_shape
 
-E, X = 0, 1
+E, X, LOSTREC = 0, 1, 2
 BASE = 0x400000
 NAMES = ["main", "alpha", "beta", "gamma", "delta", "eps", "zeta", "eta", "theta", "iota"]
 FORKS = ["fork", "vfork", "daemon"]
@@ -164,6 +164,23 @@ def gen_case1(rng, size="small"):
         if t["recs"] and rng.random() < 0.3:
             t["recs"] = t["recs"][:rng.randrange(0, len(t["recs"]) + 1)]
             t["cut"] = True
+    # LOST markers (libmcount buffer overflow): a marker replaces a run of records, so the depth may jump
+    # up or down across it; also as first / last record, several per task, in several tasks
+    if rng.random() < (0.35 if size != "large" else 0.5):
+        for t in tasks:
+            if not t["recs"] or rng.random() < 0.4:
+                continue
+            for _ in range(rng.choice([1, 1, 1, 2, 3])):
+                recs = t["recs"]
+                pos = rng.choice([0, len(recs), rng.randrange(0, len(recs) + 1), rng.randrange(0, len(recs) + 1)])
+                drop = rng.choice([0, 1, 1, 2, 3, 5, 8])
+                before = [x[0] for x in recs[:pos] if x[0]]
+                after = [x[0] for x in recs[pos + drop:] if x[0]]
+                prev_t = max(before) if before else (min(after) if after else 1000)
+                tm = 0 if rng.random() < 0.7 else prev_t
+                marker = [tm, LOSTREC, rng.choice([0, 0, 0, 1, 3]), rng.choice([0, 1, 2, 7, 100, 4096])]
+                t["recs"] = recs[:pos] + [marker] + recs[pos + drop:]
+            t["lost"] = True
     # an empty task now and then
     if rng.random() < 0.1:
         tasks.append({"parent": None, "recs": [], "forest": [], "d0": 0, "kind": "empty"})
@@ -174,8 +191,9 @@ def gen_case1(rng, size="small"):
         if cand:
             t = rng.choice(cand)
             j = rng.randrange(1, len(t["recs"]))
-            t["recs"][j][0] = max(1000, t["recs"][j - 1][0] - rng.choice([1, 2, 500]))
-            illformed = True
+            if t["recs"][j][1] != LOSTREC and t["recs"][j - 1][1] != LOSTREC:
+                t["recs"][j][0] = max(1000, t["recs"][j - 1][0] - rng.choice([1, 2, 500]))
+                illformed = True
     # task order in the info file (= index order of the merge) is independent of creation order
     order = list(range(len(tasks)))
     if rng.random() < 0.6:
@@ -187,8 +205,11 @@ def gen_case1(rng, size="small"):
         t = tasks[old]
         out_tasks.append({"tid": tids[new], "parent": None if t["parent"] is None else pos[t["parent"]],
                           "recs": [list(r) for r in t["recs"]], "kind": t["kind"], "cut": bool(t.get("cut")),
+                          "lost": bool(t.get("lost")),
                           "created": old})
     maxd = max([r[2] for t in out_tasks for r in t["recs"]] or [0])
+    if any(t["lost"] for t in out_tasks):
+        maxd += 4            # the slots user_stack_count + 0..depth are touched after a marker
     max_stack = rng.choice([1024, 1024, maxd + 1, maxd + 2])
     return {"names": names, "forks": forks, "tasks": out_tasks, "max_stack": max(max_stack, 1), "illformed": illformed}
 
@@ -220,6 +241,23 @@ def hand_cases():
         {"tid": 30, "parent": None, "recs": [[1000, E, 0, 0], [1010, E, 1, 1], [1020, E, 2, 3], [1030, X, 2, 3], [1090, X, 1, 1], [1100, X, 0, 0]]},
         {"tid": 31, "parent": 0, "recs": [[1025, E, 3, 4], [1040, X, 3, 4], [1050, X, 2, 3], [1060, X, 1, 1]]},
         {"tid": 32, "parent": 1, "recs": [[1035, X, 3, 4], [1045, E, 3, 2], [1046, X, 3, 2], [1055, X, 2, 3]]}]})
+    # LOST markers: the seeded-regression shape (main{foo{bar{qux{ LOST baz() at depth 1, } main at depth 0) next to
+    # an unrelated thread, with --tid variants
+    cs.append({"names": ["main", "foo", "bar", "qux", "baz"], "forks": [], "max_stack": 1024, "illformed": False,
+               "variants": [{"fold": True, "sel": [0], "fields": ["duration", "tid"], "column": None, "newline": False},
+                            {"fold": False, "sel": [0], "fields": ["duration", "tid", "addr", "time", "delta", "elapsed", "module"],
+                             "column": None, "newline": False},
+                            {"fold": True, "sel": [1], "fields": ["duration", "tid"], "column": None, "newline": False}],
+               "tasks": [
+        {"tid": 1000, "parent": None, "lost": True, "recs": [[1000, E, 0, 0], [1010, E, 1, 1], [1020, E, 2, 2], [1030, E, 3, 3],
+                                                            [0, LOSTREC, 0, 12], [1100, E, 1, 4], [1110, X, 1, 4], [1200, X, 0, 0]]},
+        {"tid": 1001, "parent": None, "recs": [[1005, E, 0, 1], [1105, E, 1, 2], [1106, X, 1, 2], [1150, X, 0, 1]]}]})
+    # regression (fix 48624de): fork() is the first call after a LOST marker; the child continues at the depth that
+    # fork() line is displayed at (depth jump up across the gap)
+    cs.append({"names": ["main", "a", "b", "fork"], "forks": [3], "max_stack": 1024, "illformed": False, "tasks": [
+        {"tid": 70, "parent": None, "lost": True, "recs": [[1000, E, 0, 0], [1010, E, 1, 1], [1020, X, 1, 1], [0, LOSTREC, 0, 3],
+                                                          [1030, E, 2, 3], [1040, X, 2, 3], [1050, X, 1, 2], [1060, X, 0, 0]]},
+        {"tid": 71, "parent": 0, "recs": [[1035, X, 2, 3], [1036, E, 2, 2], [1037, X, 2, 2], [1038, X, 1, 2]]}]})
     # durations at the unit boundaries
     cs.append({"names": ["main", "a"], "forks": [], "max_stack": 2, "illformed": False, "tasks": [
         {"tid": 7, "parent": None, "recs": [[1000, E, 0, 0], [1000, E, 1, 1], [1999, X, 1, 1], [2000, E, 1, 1], [3000, X, 1, 1],
@@ -301,7 +339,8 @@ def write_dir(case, d):
     tl = []
     for t in case["tasks"]:
         tl.append({"tid": t["tid"], "pid": t["tid"], "ppid": None,
-                   "recs": [{"t": r[0], "type": r[1], "depth": r[2], "addr": BASE + syms[r[3]][0]} for r in t["recs"]]})
+                   "recs": [{"t": r[0], "type": r[1], "depth": r[2],
+                             "addr": r[3] if r[1] == LOSTREC else BASE + syms[r[3]][0]} for r in t["recs"]]})
     desc = {"syms": syms, "base": BASE, "tasks": tl, "max_stack": case["max_stack"]}
     datadir.write(desc, d)
     # task.txt in creation order (a parent before its children); threads belong to the first root
@@ -427,6 +466,12 @@ def parse_output(out, v, case):
             kind, indent = "B", 0
             if sp != 0 and not fields:
                 ok = False
+        elif re.fullmatch(r"/\* LOST (\d+|some) records!! \*/", rest):
+            mm = re.fullmatch(r"/\* LOST (\d+|some) records!! \*/", rest)
+            kind, indent = "T", sp // 2
+            name = 0 if mm.group(1) == "some" else int(mm.group(1))
+            if sp % 2 or vals["duration"] or vals["addr"]:
+                ok = False
         elif rest == "/* inverted time: broken data? */" and blank_prefix:
             kind, indent = "W", (sp - 1) // 2
             if sp % 2 != 1:
@@ -462,7 +507,15 @@ def parse_output(out, v, case):
         m = re.fullmatch(r"\[(-?\d+)\] (.*)", ln)
         if m and cur is not None:
             lv = int(m.group(1))
-            cur[1].append((lv if lv >= 0 else 55555, name_idx.get(m.group(2), 88888)))
+            nm = m.group(2)
+            mh = re.fullmatch(r"<([0-9a-f]+)>", nm)
+            if mh:
+                # after a LOST marker the slot's time is a duration: the symbol lookup by time finds no
+                # session and the address is printed instead of the name (not what C06 speaks about)
+                k = addr_idx.get(int(mh.group(1), 16), 99999)
+            else:
+                k = name_idx.get(nm, 88888)
+            cur[1].append((lv if lv >= 0 else 55555, k))
         elif ln.strip():
             rem.append((998, []))
     return lines, rem
@@ -476,7 +529,7 @@ def run_variant(objdir, d, case, v):
 
 
 # ------------------------------------------------------------------ Coq terms
-KIND = {"O": "KOpen", "L": "KLeaf", "C": "KClose", "W": "KWarn", "B": "KBlank"}
+KIND = {"O": "KOpen", "L": "KLeaf", "C": "KClose", "W": "KWarn", "B": "KBlank", "T": "KLost"}
 
 
 def coq_line(l):
@@ -491,7 +544,8 @@ def coq_output(o):
 
 def coq_task(t):
     return "T %s [%s]" % ("None" if t["parent"] is None else "(Some %d%%nat)" % t["parent"],
-                          "; ".join("R %d %s %d %d" % (r[0], "ENTRY" if r[1] == E else "EXIT", r[2], r[3] + 1) for r in t["recs"]))
+                          "; ".join("R %d %s %d %d" % (r[0], ["ENTRY", "EXIT", "LOST"][r[1]], r[2], r[3] if r[1] == LOSTREC else r[3] + 1)
+                                    for r in t["recs"]))
 
 
 def coq_variant(v):
@@ -553,7 +607,7 @@ def common_meta(ctx):
         "synthetic data directory writer vf/datadir.py (+ task.txt writer in props/c06.py) and the stdout parser of props/c06.py",
     ]
     ctx.assume = [
-        "records are ENTRY/EXIT of user functions only (no LOST/EVENT, no kernel/perf/extern data, no arguments)",
+        "records are ENTRY/EXIT of user functions and the LOST marker of libmcount (no EVENT, no kernel/perf/extern data, no arguments)",
         "nesting depth < hdr.max_stack <= 1024 (default -D), no -t/-F/-N/-T/-r options, one session, symbols resolve",
         "no symbol named exec*/setjmp/longjmp (their fix-ups are not modelled); fork/vfork/daemon are modelled",
         "--tid: presentation fields (-f without tid/duration) are compared with the full view only under parent-closed selections; a forked child selected without its parent continues at its inherited stack depth (modelled; the repaired defect tid-child-without-parent has a dedicated witness)",
@@ -604,6 +658,24 @@ def case_tags(case):
         tags.append("tie-inside-task")
     if any(t.get("cut") for t in case["tasks"]):
         tags.append("open-tail")
+    for t in case["tasks"]:
+        rs = t["recs"]
+        for j, r in enumerate(rs):
+            if r[1] != LOSTREC:
+                continue
+            tags.append("lost-marker")
+            if j == 0:
+                tags.append("lost-first-record")
+            if j == len(rs) - 1:
+                tags.append("lost-last-record")
+            before = [x for x in rs[:j] if x[1] != LOSTREC]
+            after = [x for x in rs[j + 1:] if x[1] != LOSTREC]
+            if before and after:
+                db = before[-1][2] + (1 if before[-1][1] == E else 0)
+                da = after[0][2] + (1 if after[0][1] == X else 0)
+                tags.append("lost-depth-" + ("up" if da > db else "down" if da < db else "same"))
+            if r[0] == 0:
+                tags.append("lost-time-0")
     if case["illformed"]:
         tags.append("illformed-inverted-time")
     maxd = max([r[2] for t in case["tasks"] for r in t["recs"]] or [0])
